@@ -10,12 +10,12 @@ from rv.props import common as C
 from rv import oracles as O
 
 LEVEL = "exploration"
-RULE = ("all 19 algorithms x tie-heavy and generic inputs of the C01/C03/C05 classes; every case is executed under 8 presentations (list, int64 array, unsigned-integer array, dict(enumerate(values)), dict with "
+RULE = ("all 19 algorithms x tie-heavy and generic inputs of the C01/C03/C05 classes; every case is executed under 9 presentations (list, int64 array, unsigned-integer array, dict whose integer names are other items' values, dict(enumerate(values)), dict with "
         "shuffled string names, names+valueof with integer names disjoint from the values, dict with integer names overlapping the value range, names+valueof strings); "
         "30% of each shard: the 11 cheap heuristics on small value ranges (values <= 5..20, <= 12 items) under list / shuffled-string dict / dict(enumerate) / integer names; every 40th case: 9-11 items over two distinct values into 5 bins for ckk under list, array and dict; non-trivial = >= 3 items, >= 2 bins; distinct on (algorithm, config, size, sorted values)")
 ASSUMPTIONS = ["integer values (ndarray presentation needs them)", "bin-completion with names is the open finding KF-bc-names"]
 FLOORS = {"quick": {"distinct_nontrivial": 800}, "thorough": {"distinct_nontrivial": 4000}}
-PRES = ("list", "array", "dict_str", "names_int", "dict_int_overlap", "names_str", "dict_enum", "array_u")
+PRES = ("list", "array", "dict_str", "names_int", "dict_int_overlap", "names_str", "dict_enum", "array_u", "dict_val_shift")
 
 
 def plan(tier, seed):
@@ -35,6 +35,8 @@ def judge(case, ctx):
     ctx.evaluated()
     ref = None
     for pres in (case.get("pres_subset") or PRES):
+        if pres == "dict_val_shift" and any(isinstance(v, float) for v in case["values"]):
+            continue
         named = pres not in ("list", "array", "array_u")
         if pres == "array_u" and (sum(case["values"]) >= 2 ** 31 or any(isinstance(v, float) for v in case["values"])):
             continue        # unsigned presentation only while every sum stays far below the dtype's limit (fixed-width overflow is numpy's semantics, not prtpy's)
@@ -122,7 +124,7 @@ def draw_cheap(rng, i):
     alg = CHEAP[i % len(CHEAP)]
     R = rng.choice([5, 10, 10, 20])
     n = rng.randint(2, 12)
-    pres = {"pres": "list", "pres_seed": rng.randrange(1 << 30), "pres_subset": ["list", "dict_str", "dict_enum", "names_int"]}
+    pres = {"pres": "list", "pres_seed": rng.randrange(1 << 30), "pres_subset": ["list", "dict_str", "dict_enum", "names_int", "dict_val_shift"]}
     if alg in ("greedy", "roundrobin", "kk", "multifit"):
         return dict({"kind": "partition", "alg": alg, "k": rng.choice([2, 3, 4]), "values": [rng.randint(0, R) for _ in range(n)], "cls": "cheap_smallrange",
                      "iterations": 10 if alg == "multifit" else None}, **pres)
